@@ -46,6 +46,16 @@ func clampTick(t int64) int64 {
 }
 
 // poolState reads the pool as the implementation reports it.
+// claimDust: the sub-unit remainder of a spread-reward claim is re-added to the pool's accumulator, i.e. handed
+// to the other positions of the pool: each of them may later claim up to one unit more per such claim.
+func (w *world) claimDust(claimer *refPos) {
+	for _, q := range w.poolPositions(claimer.pool) {
+		if q != claimer {
+			q.tolUp = radd(q.tolUp, rint(1))
+		}
+	}
+}
+
 // roundTicks are ticks whose square-root price is a short decimal (see Generate): prices 0.25 0.81 0.9801 1
 // 1.0201 1.0404 1.21 2.25 4, i.e. square roots 0.5 0.9 0.99 1 1.01 1.02 1.1 1.5 2.
 var roundTicks = []int64{-7500000, -1900000, -199000, 0, 20100, 40400, 210000, 1250000, 3000000}
@@ -360,6 +370,73 @@ func (w *world) step(i int, st simcore.Step) bool {
 			return true
 		}
 		ctx := n.Ctx
+		if (st.Arg(0)/7)%2 == 1 {
+			// one message collecting for several positions of the owner (any pools)
+			var group []*refPos
+			for _, q := range w.sortedPos() {
+				if q.owner == ps.owner && len(group) < 3 {
+					group = append(group, q)
+				}
+			}
+			if len(group) >= 2 {
+				var ids []uint64
+				for _, q := range group {
+					ids = append(ids, q.id)
+				}
+				owner := n.Accts[ps.owner]
+				before := n.AllBalances(ctx, owner)
+				if st.Op == "cspread" {
+					want := sdk.NewCoins()
+					okq := true
+					for _, q := range group {
+						c, err := n.App.ConcentratedLiquidityKeeper.GetClaimableSpreadRewards(ctx, q.id)
+						if err != nil {
+							okq = false
+						}
+						want = want.Add(c...)
+					}
+					res := deliver(&cltypes.MsgCollectSpreadRewards{PositionIds: ids, Sender: owner.String()})
+					if !res.OK() {
+						return !run.Stop()
+					}
+					run.Probe("multi-position-collect-spread")
+					// the sub-unit remainder of each claim is re-added to the pool's accumulator, so a later position of
+					// the same message may be paid up to one unit more per earlier claim than it could claim before
+					got := n.AllBalances(n.Ctx, owner).Sub(before...)
+					bad := !okq
+					for _, d := range append(want.Denoms(), got.Denoms()...) {
+						diff := got.AmountOf(d).Sub(want.AmountOf(d))
+						if diff.IsNegative() || diff.GT(osmomath.NewInt(int64(len(ids)-1))) {
+							bad = true
+						}
+					}
+					if bad {
+						run.Fail("C08", "claim-equals-claimable", "spread-multi", "positions %v: claimable spread rewards sum to %s but one collect message paid %s", ids, want, got)
+						if run.Enabled("C08") {
+							return false
+						}
+					}
+					for _, q := range group {
+						q.ent, q.tol, q.tolUp = map[string]*rat{}, rnew(), rnew()
+						q.claims++
+						q.clean, q.group = false, 0
+						w.claimDust(q)
+					}
+					return true
+				}
+				// incentives: what one position forfeits may be re-deposited to the next one in the same message, so
+				// only the pool-level conservation oracle (evaluated around every step) judges the amounts
+				res := deliver(&cltypes.MsgCollectIncentives{PositionIds: ids, Sender: owner.String()})
+				if !res.OK() {
+					return !run.Stop()
+				}
+				run.Probe("multi-position-collect-incentives")
+				for _, q := range group {
+					q.clean, q.group = false, 0
+				}
+				return true
+			}
+		}
 		if st.Op == "cspread" {
 			want, qerr := n.App.ConcentratedLiquidityKeeper.GetClaimableSpreadRewards(ctx, ps.id)
 			if qerr == nil && fk == "" && !w.ledgerCheck(ps, want, "claim") {
@@ -386,6 +463,7 @@ func (w *world) step(i int, st simcore.Step) bool {
 			}
 			ps.ent, ps.tol, ps.tolUp = map[string]*rat{}, rnew(), rnew()
 			ps.claims++
+			w.claimDust(ps)
 		} else {
 			wantC, wantF, qerr := n.App.ConcentratedLiquidityKeeper.GetClaimableIncentives(ctx, ps.id)
 			_, _, liqNow := w.poolState(ctx, ps.pool)
@@ -829,9 +907,11 @@ func (w *world) swap(i int, st simcore.Step, fk string, fa int64) bool {
 	// every bucket multiplies amounts by 18-digit decimals (spread factor, its quotient f/(1-f))
 	relTerm := rquo(rmul(radd(ideal.in, ideal.out), rnew().SetFrac64(4*(buckets+1), 1)), rfromInt(pow10(18).BigInt()))
 	B = radd(B, rfromInt(ceilRat(relTerm)))
-	epsOf := func(x *rat) *rat {
-		return radd(rnew().SetFrac64(1, 1_000_000_000), rquo(rmul(x, rnew().SetFrac64(2*(buckets+1), 1)), rfromInt(pow10(18).BigInt())))
-	}
+	// On the side that must never be exceeded only an absolute 1e-9 is allowed (the reference is exact; the
+	// implementation rounds every 18-digit product and quotient in the pool's favour, including the spread
+	// quotient f/(1-f)). An earlier relative allowance of 2e-18 per bucket turned out to be unnecessary (10 000
+	// runs over two seeds without it) and hid a seeded change that rounds that quotient to nearest.
+	epsOf := func(x *rat) *rat { return rnew().SetFrac64(1, 1_000_000_000) }
 	gotOutR, paidInR := rfromInt(gotOut.BigInt()), rfromInt(paidIn.BigInt())
 	if gotOutR.Cmp(radd(ideal.out, epsOf(ideal.out))) > 0 {
 		run.Fail("C03", "paid-out-more-than-curve", "swap", "pool paid out %s, the exact curve prescribes %s (zeroForOne=%v exactIn=%v amount %s)", gotOut, ideal.out.FloatString(6), zeroForOne, exactIn, amt)
